@@ -53,7 +53,7 @@ def hang_is_violation(fn):
 
 
 # how long a client may wait for the server (a compile of these sources takes well under a second)
-CLIENT_TIMEOUT = 40
+CLIENT_TIMEOUT = 20
 
 
 def scratch():
